@@ -4,7 +4,11 @@ Tie: Gen/MframeFw.v (rows of the real sched_set_for_task[] tables, enum mframe_t
 and Gen/MframeTrxcon.v (all layouts of the real layouts[], enum l1sched_lchan_type, l1sched_lchan_desc[] chan_nr/link_id/handlers,
 the results of the real l1sched_mframe_layout(config, tn)) - both produced by C dumpers that #include the real .c files -
 plus correspondence of the extracted model with the real mframe_schedule() (every task x every fn of the 51*26*8 cycle),
-the real layouts[i].frames[fn % period] and the real l1sched_mframe_layout()."""
+the real layouts[i].frames[fn % period], the real l1sched_mframe_layout(), the real l1sched_configure_ts(), and - the four places
+where sched_trx.c performs the frame lookup - the real l1sched_handle_rx_burst() incl. subst_frame_loss(), l1sched_pull_burst() and
+l1sched_handle_rx_probe() driven through charness/c11_trxcon_cfg.c with recording handler stubs (burst sequences with losses,
+out-of-order bursts, period-boundary and hyperframe-wrap crossings; every frame of the 51*26*8 cycle for pull_burst / probe)."""
+import math
 import os
 import re
 import subprocess
@@ -67,6 +71,23 @@ def write_incs():
     head = dsrc.split("l1sched_lchan_desc[")[0]
     handlers = re.findall(r"^\s*(int\s+\w+\s*\([^;{]*\))\s*;", head, re.M)
     txt = "#ifdef C11_HANDLERS\n" + "".join(h + " { return 0; }\n" for h in handlers) + "#endif\n"
+    # recording bodies (c11_trxcon_cfg.c): the parameter names come from the declaration text; any other shape of a
+    # handler declaration stops the check (fail closed - a handler that does not record would hide its calls)
+    rec = []
+    shape = re.compile(r"int\s+(\w+)\s*\(\s*struct\s+l1sched_lchan_state\s*\*\s*(\w+)\s*,\s*"
+                       r"(const\s+struct\s+l1sched_burst_ind|struct\s+l1sched_burst_req)\s*\*\s*(\w+)\s*\)$")
+    for h in handlers:
+        m = shape.match(" ".join(h.split()))
+        if not m:
+            raise RuntimeError("handler declaration in sched_lchan_desc.c has an unexpected shape: %r" % h)
+        name, a1, kind, a2 = m.groups()
+        rx = kind.startswith("const")
+        if rx != name.startswith("rx_") or (not rx and not name.startswith("tx_")):
+            raise RuntimeError("handler %s: direction of the name and of the burst argument differ" % name)
+        rec.append("%s { return %s(%s, %s, %s); }\n" % (h, "c11_rec_rx" if rx else "c11_rec_tx", a1, a2, name))
+    if not rec or len(re.findall(r"\b[rt]x_\w+_fn\b\s*\(", head)) != len(rec):
+        raise RuntimeError("sched_lchan_desc.c: not every rx_/tx_ handler declaration was recognised")
+    txt += "#ifdef C11_HANDLERS_REC\n" + "".join(rec) + "#endif\n"
     txt += "".join("E(%s)\n" % n for n in lch) + "".join("F(%s)\n" % a for a in arrs)
     common.write_if_changed(os.path.join(d, "c11_trxcon_names.inc"), txt)
     return d, tasks, lch, arrs
@@ -98,6 +119,10 @@ def build_c(ctx):
     if not ok:
         raise RuntimeError("c11_trxcon_cfg does not compile:\n%s" % log[-3000:])
     bins["c11_trxcon_cfg"] = path
+    # twin without sanitizers: only used to look at what a case that the sanitizers stopped goes on to do (which handler calls follow)
+    ok, path, log = common.cc("c11_trxcon_cfg_nosan", [os.path.join(ch, "c11_trxcon_cfg.c"), os.path.join(p["lib"], "src/talloc.c")],
+                              flags=tflags.replace("c11_compat.h", "c11_trx_compat.h") + " -I%s/stubs/a/b -I%s/stubs/c11" % (ch, ch), sanitize=False)
+    bins["c11_trxcon_cfg_nosan"] = path if ok else None
     return bins
 
 
@@ -130,7 +155,7 @@ def dump_trx(bins):
     rc, out, err = _run([bins["c11_trxcon_dump"], "dump"])
     if rc != 0 or not out.rstrip().endswith("END"):
         raise RuntimeError("c11_trxcon_dump failed rc=%d\n%s" % (rc, err[-2000:]))
-    tx = dict(enum={}, pchan={}, desc={}, layouts=[], lookup={}, chanmax=None, lid_sacch=None)
+    tx = dict(enum={}, pchan={}, desc={}, auto={}, layouts=[], lookup={}, chanmax=None, lid_sacch=None)
     for line in out.splitlines():
         w = line.split()
         if w[0] == "ENUM":
@@ -143,6 +168,8 @@ def dump_trx(bins):
             tx["pchan"][w[1]] = int(w[2])
         elif w[0] == "DESC":
             tx["desc"][int(w[1])] = tuple(int(x) for x in w[2:6])
+        elif w[0] == "DAUTO":
+            tx["auto"][int(w[1])] = int(w[2])
         elif w[0] == "LAYOUT":
             tx["layouts"].append(dict(cfg=int(w[2]), period=int(w[3]), slotmask=int(w[4]), mask=int(w[5]), n=int(w[6]), frames=[]))
         elif w[0] == "FRAME":
@@ -194,6 +221,8 @@ def gen_trx_text(tx):
         t += "Definition tx_%s : Z := %d.\n" % (name, v)
     t += "\n(* l1sched_lchan_desc[chan], chan = 0..CHAN_MAX-1: (chan_nr, link_id, rx_fn != NULL, tx_fn != NULL) *)\n"
     t += "Definition tx_desc : list (Z*Z*Z*Z) := [\n" + ";\n".join("  " + _tup(tx["desc"][i]) for i in range(tx["chanmax"])) + "\n].\n"
+    t += "\n(* l1sched_lchan_desc[chan].flags & L1SCHED_CH_FLAG_AUTO (activated by l1sched_configure_ts() itself) *)\n"
+    t += "Definition tx_desc_auto : list Z := " + common.zlist([tx["auto"][i] for i in range(tx["chanmax"])]) + ".\n"
     t += ("\n(* layouts[i]: (chan_config, period, slotmask, lchan_mask, number of rows of the frames array (-1: frames == NULL,\n"
           "   -2: not the start of a frame_* array), rows (dl_chan, dl_bid, ul_chan, ul_bid)) *)\n")
     t += "Definition tx_layouts : list (Z*Z*Z*Z*Z*list (Z*Z*Z*Z)) := [\n"
@@ -418,6 +447,472 @@ def oracle_rows(ctx, fw, tx, fired, curs):
     return n
 
 
+# ------------------------------------------------------------------ the consumers of the lookup: l1sched_handle_rx_burst / pull_burst / rx_probe
+
+ALLMASK = (1 << 40) - 1
+U32 = 1 << 32
+U64 = 1 << 64
+MAX_STOPS = 3     # sanitizer stops (each reported with its minimised input) after which the rest of a batch runs on the twin without sanitizers
+
+
+def case_line(c):
+    if "raw" in c:
+        return c["raw"]
+    v = [c["cfg"], c["tn"], c["act"], len(c["pokes"])]
+    for pk in c["pokes"]:
+        v += list(pk)
+    v += [len(c["fns"])] + list(c["fns"])
+    return " ".join(str(x) for x in v)
+
+
+def show_case(c):
+    if "raw" in c:
+        return dict(kind=c["kind"], line=c["raw"])
+    return dict(kind=c["kind"], config=c["cfg"], tn=c["tn"], activate_mask=hex(c["act"]),
+                poke=[dict(lchan=pk[0], num_proc=pk[1] * U32 + pk[2], num_lost=pk[3], last_proc=pk[4]) for pk in c["pokes"]],
+                fns=list(c["fns"]), line=case_line(c))
+
+
+def real_seq(binp, mode, lines):
+    """run case lines through the harness; a line on which the process stops (sanitizer report, signal) gets None and the
+    run continues behind it.  Returns (results, [(line index, rc, stderr tail)])"""
+    env = dict(os.environ, ASAN_OPTIONS="detect_leaks=0")
+    res = [None] * len(lines)
+    stops = []
+    start = 0
+    while start < len(lines):
+        pr = subprocess.run([binp, mode], input="\n".join(lines[start:]) + "\n", stdout=subprocess.PIPE, stderr=subprocess.PIPE,
+                            text=True, timeout=1500, env=env)
+        done = pr.stdout.split("\n")[:-1]          # only lines that were terminated
+        done = done[:len(lines) - start]
+        for i, l in enumerate(done):
+            try:
+                res[start + i] = [int(x) for x in l.split()]
+            except ValueError:
+                res[start + i] = None
+        if len(done) == len(lines) - start:
+            break
+        k = start + len(done)
+        stops.append((k, pr.returncode, pr.stderr[:3000]))
+        start = k + 1
+        if len(stops) >= MAX_STOPS:
+            break
+    return res, stops
+
+
+def minimise_stop(binp, mode, tx, c):
+    """a shorter case that still stops the harness: the shortest stopping prefix, then (rx) just the last earlier burst of the same
+    channel + the stopping burst"""
+    if "raw" in c or len(c["fns"]) <= 2:
+        return c
+
+    def stops(fns):
+        r, st = real_seq(binp, mode, [case_line(dict(c, fns=fns))])
+        return bool(st)
+    lo, hi = 1, len(c["fns"])          # invariant: prefix of length hi stops
+    while lo < hi:
+        mid = (lo + hi) // 2
+        if stops(c["fns"][:mid]):
+            hi = mid
+        else:
+            lo = mid + 1
+    fns = c["fns"][:hi]
+    li, L = case_layout(tx, c)
+    if mode == "rx" and L is not None and 0 < L["period"] <= len(L["frames"]):
+        own = lambda f: L["frames"][f % L["period"]][0]
+        for j in range(len(fns) - 2, -1, -1):
+            if own(fns[j]) == own(fns[-1]):
+                if stops([fns[j], fns[-1]]):
+                    fns = [fns[j], fns[-1]]
+                break
+    elif len(fns) > 1 and stops(fns[-1:]):
+        fns = fns[-1:]
+    return dict(c, fns=fns, kind=c["kind"] + " (minimised)")
+
+
+def parse_obs(mode, r, nf):
+    """flat ints of one answered line -> dict(cfg_rc, special, frames=[...], states={type: (active, num_proc, num_lost, last_proc)}) or None"""
+    if not r:
+        return None
+    if len(r) == 1:
+        return dict(cfg_rc=r[0], special=r[0], frames=[], states={}) if r[0] in (-999, -998) else None
+    if len(r) == 2 and r[1] in (-2, -3):
+        return dict(cfg_rc=r[0], special=r[1], frames=[], states={})
+    o = dict(cfg_rc=r[0], special=None, frames=[], states={})
+    i = 1
+    try:
+        for _ in range(nf):
+            if mode == "rx":
+                rc, bid, n = r[i:i + 3]
+                i += 3
+                calls = [tuple(r[i + 5 * k:i + 5 * k + 5]) for k in range(n)]
+                i += 5 * n
+                o["frames"].append((rc, bid, calls))
+            elif mode == "tx":
+                bid, n = r[i:i + 2]
+                i += 2
+                calls = [tuple(r[i + 4 * k:i + 4 * k + 4]) for k in range(n)]
+                i += 4 * n
+                o["frames"].append((bid, calls))
+            else:
+                o["frames"].append((r[i], r[i + 1]))
+                i += 2
+        n = r[i]
+        i += 1
+        for _ in range(n):
+            t, a, hi, lo, nl, la = r[i:i + 6]
+            i += 6
+            o["states"][t] = (a, hi * U32 + lo, nl, la)
+        if i != len(r):
+            return None
+    except (ValueError, IndexError):
+        return None
+    return o
+
+
+def prop_states(tx, L, c):
+    """the channel states a configured timeslot has by the property (mask bits; active: AUTO or asked for), pokes applied"""
+    st = {}
+    for t in range(tx["chanmax"]):
+        if t < 64 and (L["mask"] >> t) & 1:
+            st[t] = dict(active=bool(tx["auto"].get(t, 0)) or (t < 62 and bool((c["act"] >> t) & 1)), np=0, last=0, exact=True)
+    for (t, hi, lo, nl, la) in c["pokes"]:
+        if t in st:
+            st[t]["np"] = hi * U32 + lo
+            st[t]["last"] = la
+            st[t]["exact"] = hi * U32 + lo < U64 - 100000   # beyond: the unsigned long wrap is the correspondence's business
+    return st
+
+
+def case_layout(tx, c):
+    li = real_lookup(tx, c["cfg"], c["tn"])
+    if li < 0 or li >= len(tx["layouts"]) or tx["layouts"][li]["cfg"] != c["cfg"]:
+        return li, None
+    return li, tx["layouts"][li]
+
+
+def oracle_rx(ctx, tx, c, o, names):
+    """the property on the recorded real handler calls of one burst sequence, with the dumped tables. Returns the number of bursts judged."""
+    li, L = case_layout(tx, c)
+    cs = show_case(c)
+
+    def fail(what, key, **kw):
+        seen = ctx.__dict__.setdefault("_c11_keys", {})
+        seen[key] = seen.get(key, 0) + 1
+        if seen[key] <= 3:
+            ctx.oracle_fail(what, dict(cs, layout=li, **kw), key=key)
+        else:
+            ctx.count("oracle_fail:" + key)
+    if L is None:
+        if o["cfg_rc"] == 0 or any(f[0] != -22 or f[2] for f in o["frames"]):
+            fail("a timeslot without a layout of its own accepts bursts", "c11-rx-unconfigured")
+        return 0
+    per, fr = L["period"], L["frames"]
+    if per == 0:
+        return 0
+    if per > len(fr):
+        return 0    # reported by oracle_tables
+    st = prop_states(tx, L, c)
+    n = 0
+    for i, (fn, (rc, bid, calls)) in enumerate(zip(c["fns"], o["frames"])):
+        n += 1
+        row = fr[fn % per]
+        ch = row[0]
+        at = dict(burst_index=i, fn=fn, row=fn % per, layout_row=list(row), rc=rc, bid=bid, calls=[list(x) for x in calls])
+        for (t, f, b, sub, hok) in calls:
+            r = fr[f % per]
+            if r[0] != t or r[1] != b:
+                fail("l1sched_handle_rx_burst: %s handler call for %s, fn %d (row %d), burst id %d, but the layout gives row %d to %s with burst id %d"
+                     % ("substituted" if sub else "direct", names.get(t, t), f, f % per, b, f % per, names.get(r[0], r[0]), r[1]),
+                     "c11-rx-call-not-a-layout-frame", **at)
+                return n
+            if not hok:
+                fail("l1sched_handle_rx_burst: the handler called for %s is not l1sched_lchan_desc[].rx_fn of that channel" % names.get(t, t),
+                     "c11-rx-wrong-handler", **at)
+                return n
+        if bid != row[1]:
+            fail("l1sched_handle_rx_burst: bi->bid %d, the layout row %d has dl_bid %d" % (bid, fn % per, row[1]), "c11-rx-bid", **at)
+            return n
+        direct = (ch, fn, row[1], 0, 1)
+        s = st.get(ch)
+        exp, exp_rc = None, None
+        if not (0 <= ch < tx["chanmax"]) or not tx["desc"][ch][2] or s is None:
+            exp, exp_rc = [], (-19,)
+        elif not s["active"]:
+            exp, exp_rc = [], (0,)
+        elif not s["exact"]:
+            pass
+        elif s["np"] == 0:
+            exp, exp_rc = [direct], (0,)
+        elif fn < HYPER and s["last"] < HYPER:
+            d = (fn - s["last"]) % HYPER
+            if d >= HYPER // 2:
+                exp, exp_rc = [], (-114,)
+            elif d == 0 or d > per:
+                exp, exp_rc = [direct], (0,)
+            else:
+                between = [(s["last"] + k) % HYPER for k in range(1, d)]
+                exp = [(ch, f, fr[f % per][1], 1, 1) for f in between if fr[f % per][0] == ch] + [direct]
+                exp_rc = (0,)
+                ctx.nontrivial(("rx-subst", li, ch, min(len(exp) - 1, 3), (s["last"] % per) + d > per, s["last"] + d >= HYPER))
+        if exp is not None:
+            if list(calls) != exp:
+                k = next((j for j in range(min(len(calls), len(exp))) if calls[j] != exp[j]), min(len(calls), len(exp)))
+                fail("l1sched_handle_rx_burst: the handler calls for %s (last processed fn %d, burst in fn %d) are not exactly the frames the layout "
+                     "gives to the channel in between + the burst itself: call #%d is %s, expected %s"
+                     % (names.get(ch, ch), s["last"] if s else -1, fn, k, list(calls[k][:3]) if k < len(calls) else "missing",
+                        list(exp[k][:3]) if k < len(exp) else "none"),
+                     "c11-rx-substituted-frames", expected_calls=[list(x) for x in exp], last_proc=s["last"] if s else None, **at)
+                return n
+            if rc not in exp_rc:
+                fail("l1sched_handle_rx_burst returns %d, expected %s" % (rc, "/".join(str(x) for x in exp_rc)), "c11-rx-rc", **at)
+                return n
+            ctx.nontrivial(("rx", li, ch, rc, len(calls) > 1, len(calls) > 0))
+        else:
+            ctx.nontrivial(("rx-raw", li, rc, min(len(calls), 3), fn >= HYPER))
+        for (t, f, b, sub, hok) in calls:
+            if t in st:
+                st[t]["np"] = (st[t]["np"] + 1) % U64 or 1
+                st[t]["last"] = f
+    return n
+
+
+def _capped_fail(ctx, what, case, key):
+    seen = ctx.__dict__.setdefault("_c11_keys", {})
+    seen[key] = seen.get(key, 0) + 1
+    if seen[key] <= 3:
+        ctx.oracle_fail(what, case, key=key)
+    else:
+        ctx.count("oracle_fail:" + key)
+
+
+def oracle_tx_probe(ctx, tx, c, o, mode, names):
+    li, L = case_layout(tx, c)
+    cs = show_case(c)
+    if L is None:
+        bad = o["cfg_rc"] == 0 or any((f != (255, [])) if mode == "tx" else (f != (-22, 0)) for f in o["frames"])
+        if bad:
+            ctx.oracle_fail("a timeslot without a layout of its own is used by %s" % mode, dict(cs, layout=li), key="c11-%s-unconfigured" % mode)
+        return 0
+    per, fr = L["period"], L["frames"]
+    if per == 0 or per > len(fr):
+        return 0
+    st = prop_states(tx, L, c)
+    n = 0
+    for fn, f in zip(c["fns"], o["frames"]):
+        n += 1
+        row = fr[fn % per]
+        if mode == "tx":
+            bid, calls = f
+            ch = row[2]
+            ok = 0 <= ch < tx["chanmax"] and tx["desc"][ch][3] and ch in st and st[ch]["active"]
+            exp = [(ch, fn, row[3], 1)] if ok else []
+            if bid != row[3] or list(calls) != exp:
+                _capped_fail(ctx, "l1sched_pull_burst(fn %d): br->bid %d, tx handler calls %s; the layout row %d has ul_chan %s, ul_bid %d"
+                                % (fn, bid, [list(x) for x in calls], fn % per, names.get(ch, ch), row[3]),
+                                dict(cs, layout=li, fn=fn, row=fn % per, layout_row=list(row), expected_calls=[list(x) for x in exp]),
+                              "c11-pull-burst-row")
+                return n
+            ctx.nontrivial(("tx", li, fn % per, bool(calls)))
+        else:
+            rc, fl = f
+            ch = row[0]
+            if 0 <= ch < tx["chanmax"] and tx["desc"][ch][2] and ch in st:
+                exp = (0, 1 if st[ch]["active"] else 0)
+            else:
+                exp = (-19, 0)
+            if (rc, fl) != exp:
+                _capped_fail(ctx, "l1sched_handle_rx_probe(fn %d) = %d, flags %d; the layout row %d has dl_chan %s: expected %d, flags %d"
+                                % (fn, rc, fl, fn % per, names.get(ch, ch), exp[0], exp[1]),
+                                dict(cs, layout=li, fn=fn, row=fn % per, layout_row=list(row)), "c11-rx-probe-row")
+                return n
+            ctx.nontrivial(("probe", li, fn % per, rc, fl))
+    return n
+
+
+def rx_cases(tx, rng, thorough):
+    """burst sequences for every combination x timeslot"""
+    cases = []
+    known = sorted(set(tx["pchan"].values()))
+    full_done = set()
+
+    def add(kind, cfg, tn, fns, act=ALLMASK, pokes=()):
+        cases.append(dict(kind=kind, cfg=cfg, tn=tn, act=act, pokes=list(pokes), fns=[f % U32 for f in fns]))
+    for cfg in known:
+        for tn in range(8):
+            li = real_lookup(tx, cfg, tn)
+            if li < 0:
+                add("no-layout", cfg, tn, [0, 1, 2])
+                continue
+            L = tx["layouts"][li]
+            per, fr = L["period"], L["frames"]
+            if per <= 0 or per > len(fr):
+                add("period-0", cfg, tn, [0, 1])
+                continue
+            first = cfg not in full_done
+            full = thorough or first
+            full_done.add(cfg)
+            bases = [7 * per, HYPER - 2 * per]
+            # every frame, in order, over two periods and a bit (all channels interleaved; each channel sees the others' frames as gaps)
+            for b in [0] + bases:
+                add("contiguous", cfg, tn, [(b + k) % HYPER for k in range(2 * per + 5)])
+            add("contiguous-auto-only", cfg, tn, [(bases[0] + k) % HYPER for k in range(per + 3)], act=0)
+            add("contiguous-some-active", cfg, tn, [(bases[1] + k) % HYPER for k in range(2 * per + 3)], act=rng.u64() & ALLMASK)
+            # random losses over three periods
+            for _ in range(6 if full else 2):
+                b = rng.choice(bases)
+                den = rng.choice([2, 3, 5, 10])
+                add("random-loss", cfg, tn, [(b + k) % HYPER for k in range(3 * per) if not rng.chance(1, den)])
+            # per channel: every k-th own frame (k - 1 own frames lost each time), through the period boundary / the hyperframe wrap
+            chans = sorted(set(r[0] for r in fr[:per]))
+            for ch in chans:
+                if not (0 <= ch < tx["chanmax"]) or not tx["desc"][ch][2]:
+                    continue
+                O = [i for i in range(per) if fr[i][0] == ch]
+                n = len(O)
+                ks = list(range(1, n + 2))
+                if not full:
+                    ks = sorted(set(k for k in (1, 2, 3, n - 1, n, n + 1) if k >= 1))
+                elif n > 40 and not (thorough and first):
+                    ks = sorted(set(list(range(1, 7)) + [n - 2, n - 1, n, n + 1] + [rng.range(7, n - 3) for _ in range(6)]))
+                for k in ks:
+                    g = math.gcd(k, n)
+                    for start in range(g if full else 1):
+                        for b in (bases if thorough else [bases[(k + start) % 2]]):
+                            fns = []
+                            j = start
+                            for _ in range(n // g + 1):
+                                fns.append((b + O[j % n] + per * (j // n)) % HYPER)
+                                j += k
+                            add("every-%d-of-%d" % (k, n), cfg, tn, fns)
+            # pairs at the edges of the loss window, per row with a handler
+            rows = [a for a in range(per) if 0 <= fr[a][0] < tx["chanmax"] and tx["desc"][fr[a][0]][2]]
+            if not full:
+                rows = rows[:4] + rows[-4:]
+            for a in rows:
+                b = bases[a % 2]
+                add("gap-period", cfg, tn, [b + a, (b + a + per) % HYPER])
+                add("same-frame", cfg, tn, [b + a, b + a])
+                add("gap-2-periods", cfg, tn, [b + a, (b + a + 2 * per) % HYPER])
+                add("half-hyperframe", cfg, tn, [b + a, (b + a + HYPER // 2) % HYPER, (b + a + 1) % HYPER])
+                add("half-hyperframe-1p", cfg, tn, [b + a, (b + a + HYPER // 2 - per) % HYPER])
+                if fr[(a + 1) % per][0] == fr[a][0]:
+                    add("gap-period+1", cfg, tn, [b + a, (b + a + per + 1) % HYPER])
+                    add("out-of-order", cfg, tn, [b + a, (b + a + 1) % HYPER, b + a, (b + a + 2) % HYPER])
+                add("back-a-period", cfg, tn, [(b + a + per) % HYPER, b + a, (b + a + per + 1) % HYPER])
+            # C integers: poked statistics (num_proc about to wrap, last_proc outside the hyperframe), frame numbers up to 2^32 - 1
+            for _ in range(24 if full else 6):
+                ch = rng.choice(rows and [fr[a][0] for a in rows] or [0])
+                last = rng.choice([rng.below(HYPER), HYPER - 1, HYPER, HYPER + rng.below(300), U32 - 1 - rng.below(3), rng.below(U32)])
+                np = rng.choice([0, 1, 2, U64 - 1, U64 - 2, U64 - 1 - rng.below(200), rng.below(U64)])
+                fns = []
+                f = last
+                for _ in range(rng.range(1, 6)):
+                    f = rng.choice([f + rng.range(0, per + 2), f - rng.range(1, per), rng.below(U32), f + HYPER // 2 - rng.range(0, 2), (f + rng.range(1, per)) % HYPER]) % U32
+                    fns.append(f)
+                add("poked", cfg, tn, fns, act=ALLMASK if rng.chance(3, 4) else rng.u64() & ALLMASK,
+                    pokes=[(ch, np >> 32, np & (U32 - 1), rng.below(1000), last)])
+    for cfg in (7, 50, 127, 99999):
+        add("no-layout", cfg, rng.below(8), [0, 1, HYPER - 1])
+    add("no-burst", known[1], 0, [])
+    add("poked", known[1], 0, [7], pokes=[(5, 0, 1, 0, 3)])
+    add("poked", known[1], 0, [7], pokes=[(39, 0, 1, 0, 3), (5, 0, 0, 0, 3)])
+    for raw in ("", "1", "1 0 0", "1 8 0 0 1 5", "1 -1 0 0 1 5", "1 0 0 0 2 5", "1 0 0 0 1 5 6", "1 0 0 1 5 0 1 0 3 1", "1 0 0 1 40 0 1 0 3 1 7",
+                "1 0 0 0 1 4294967296", "1 0 0 0 1 -1", "1 0 -1 0 1 1", "100001 0 0 0 1 1", "1 0 0 65 0", "1 0 0 1 5 4294967296 0 0 0 1 1", "1 0 0 0"):
+        cases.append(dict(kind="malformed", raw=raw))
+    return [c for c in cases if "raw" not in c or c["raw"].strip()]
+
+
+def txp_cases(tx, rng, thorough):
+    cases = []
+    known = sorted(set(tx["pchan"].values()))
+    cyc_done = set()
+    edge = [HYPER - 1, HYPER, U32 - 1, U32 - 2, CYCLE - 1, CYCLE]
+    for cfg in known:
+        for tn in range(8):
+            li = real_lookup(tx, cfg, tn)
+            per = tx["layouts"][li]["period"] if li >= 0 else 0
+            if per <= 0:
+                cases.append(dict(kind="no-frames", cfg=cfg, tn=tn, act=ALLMASK, pokes=[], fns=[0, 1]))
+                continue
+            for act, kind in ((ALLMASK, "period-all-active"), (0, "period-auto-only"), (rng.u64() & ALLMASK, "period-some-active")):
+                cases.append(dict(kind=kind, cfg=cfg, tn=tn, act=act, pokes=[], fns=list(range(2 * per + 2)) + edge + [rng.below(U32) for _ in range(8)]))
+            if cfg not in cyc_done or thorough:       # every frame of the 51 x 26 x 8 cycle (and of the last one of the hyperframe)
+                cyc_done.add(cfg)
+                for b in (0, HYPER - CYCLE):
+                    for k in range(0, CYCLE, 1326):
+                        cases.append(dict(kind="full-cycle", cfg=cfg, tn=tn, act=ALLMASK, pokes=[], fns=list(range(b + k, b + k + 1326))))
+    for cfg in (7, 127):
+        cases.append(dict(kind="no-layout", cfg=cfg, tn=rng.below(8), act=ALLMASK, pokes=[], fns=[0, 50, HYPER]))
+    cases.append(dict(kind="malformed", raw="1 0 0 0 3 1 2"))
+    cases.append(dict(kind="malformed", raw="1 9 0 0 1 1"))
+    return cases
+
+
+def run_consumers(ctx, bins, tx, thorough):
+    rng = ctx.rng.fork("consumers")
+    names = {v: k for k, v in tx["enum"].items()}
+    sets = [("rx", rx_cases(tx, rng, thorough))] + [(m, txp_cases(tx, rng.fork(m), thorough)) for m in ("tx", "probe")]
+    for mode, cases in sets:
+        what = {"rx": "l1sched_handle_rx_burst", "tx": "l1sched_pull_burst", "probe": "l1sched_handle_rx_probe"}[mode]
+        lines = [case_line(c) for c in cases]
+        res, stops = real_seq(bins["c11_trxcon_cfg"], mode, lines)
+        for (k, rc, err) in stops:
+            c = minimise_stop(bins["c11_trxcon_cfg"], mode, tx, cases[k])
+            m = re.search(r"ERROR: AddressSanitizer: ([\w-]+)[^\n]*", err) or re.search(r"runtime error: [^\n]*", err)
+            where = re.findall(r"#\d+ 0x[0-9a-f]+ in (\w+) [^\n]*?([\w.]+\.c:\d+)", err)
+            loc = next(("%s (%s)" % w for w in where if "sched_" in w[1]), where[0][0] if where else "?")
+            oob = bool(m) and "overflow" in m.group(0)
+            info = dict(show_case(c), harness_rc=rc, report=(m.group(0) if m else err[-400:]), where=loc)
+            # what the code goes on to do behind the stop: the same case on the twin built without sanitizers
+            if bins.get("c11_trxcon_cfg_nosan") and "raw" not in c:
+                r2, s2 = real_seq(bins["c11_trxcon_cfg_nosan"], mode, [case_line(c)])
+                o2 = parse_obs(mode, r2[0], len(c["fns"])) if r2[0] else None
+                if o2 is not None and o2["special"] is None:
+                    info["continues_with"] = [list(f[:2]) + [[list(x) for x in f[2]]] if mode == "rx" else list(f) for f in o2["frames"]][:8]
+                    nf = len(ctx.oracle_failures)
+                    (oracle_rx(ctx, tx, c, o2, names) if mode == "rx" else oracle_tx_probe(ctx, tx, c, o2, mode, names))
+                    for f in ctx.oracle_failures[nf:]:
+                        f["case"]["note"] = "observed on the harness built without sanitizers; with them the same input stops earlier at " + loc
+            ctx.oracle_fail("%s: %s in %s - a frame lookup reads outside the table" % (what, m.group(1) if (m and oob) else "the harness stops", loc)
+                            if oob else "%s: the harness stops (%s)" % (what, m.group(0)[:120] if m else "rc %s" % rc),
+                            info, key="c11-%s-lookup-leaves-table" % mode if oob else "c11-%s-harness-stop" % mode)
+        if len(stops) >= MAX_STOPS:
+            rest = list(range(stops[-1][0] + 1, len(lines)))
+            if bins.get("c11_trxcon_cfg_nosan") and rest:
+                r2, s2 = real_seq(bins["c11_trxcon_cfg_nosan"], mode, [lines[k] for k in rest])
+                for k, r in zip(rest, r2):
+                    res[k] = r
+                ctx.note("%s: %d sanitizer stops; the remaining %d cases were run on the harness built without sanitizers" % (what, len(stops), len(rest)))
+            else:
+                ctx.note("%s: %d sanitizer stops, the rest of the batch was not run" % (what, len(stops)))
+        idx = [k for k in range(len(cases)) if res[k] is not None]
+        ctx.correspond(what, "Mframe", idx, lambda k: "w_c11_%s %s" % (mode, lines[k]), lambda k: res[k], show=lambda k: show_case(cases[k]))
+        nj = 0
+        for k in idx:
+            c = cases[k]
+            if "raw" in c:
+                if res[k] != [-999]:
+                    ctx.oracle_fail("harness accepts a malformed case line", show_case(c), key="c11-harness-malformed")
+                ctx.nontrivial((mode, "malformed"))
+                continue
+            o = parse_obs(mode, res[k], len(c["fns"]))
+            if o is None or o["special"] in (-999, -998, -3):
+                ctx.oracle_fail("%s harness output not understood" % what, dict(show_case(c), output=res[k][:40]), key="c11-%s-harness-output" % mode)
+                continue
+            if o["special"] == -2:
+                ctx.nontrivial((mode, "period-0"))
+                continue
+            nj += oracle_rx(ctx, tx, c, o, names) if mode == "rx" else oracle_tx_probe(ctx, tx, c, o, mode, names)
+            ctx.nontrivial((mode, "kind", "every-k" if c["kind"].startswith("every-") else c["kind"]))
+        ctx.evaluations += nj
+        ctx.count("oracle:%s frames judged" % what, nj)
+        ctx.count("cases:%s frames fed" % what, sum(len(c.get("fns", ())) for c in cases))
+        for k in idx[:1] + idx[len(idx) // 2:len(idx) // 2 + 1]:
+            if "raw" not in cases[k]:
+                ctx.sample(dict(op=what, case=dict(show_case(cases[k]), fns=cases[k]["fns"][:6]), observed=res[k][:24]), limit=10)
+
+
 # ------------------------------------------------------------------ run
 
 def fn_points(rng, n):
@@ -574,6 +1069,9 @@ def run(ctx):
                 ctx.oracle_fail("frames of the layout use channels that get no channel state when the timeslot is configured: " + ", ".join(names.get(c, str(c)) for c in missing),
                                 dict(config=cfg, tn=tn, layout=li, name=L.get("name")), key="c11-no-channel-state:layout%d" % li, expected=sorted(used), observed=sorted(have))
 
+    # ---- (5) the consumers of the lookup in sched_trx.c: handle_rx_burst + subst_frame_loss, pull_burst, rx_probe on recorded handler calls
+    run_consumers(ctx, bins, tx, thorough)
+
     # ---- the oracle's copy of the specification table is the model's table
     rows = spec_rows()
     try:
@@ -605,4 +1103,10 @@ def run(ctx):
     ctx.extra["rule"] = ("exhaustive: real mframe_schedule() for each of the %d non-NULL tasks x every current frame 0..10607, compared with the extracted model and "
                          "(oracle) with the real layouts[] rows; plus frame numbers +-4 around multiples of 13/26/51/102/104/1326/10608, the hyperframe end and 2^32, "
                          "random task sets; frames[fn %% period] for every layout over two periods + boundaries; l1sched_mframe_layout for all 128x8 pairs + out-of-range. "
-                         "distinct_nontrivial = distinct (task, set of kinds/flags fired), (layout, frame row), (lookup result) classes" % len(tasks))
+                         "the real l1sched_handle_rx_burst()/subst_frame_loss(), l1sched_pull_burst(), l1sched_handle_rx_probe() with recording handlers for every "
+                         "combination x timeslot: all frames in order over 2 periods at fn 0 / mid-hyperframe / across 2715647->0, random losses, per channel every k-th own "
+                         "frame for k = 1..n+1 (k-1 losses; all k on one timeslot per combination, boundary k on the others), gaps of exactly period, period+1, 2 periods, "
+                         "0, half a hyperframe, out-of-order and back-a-period bursts, poked statistics (num_proc near 2^64, last_proc and fn up to 2^32-1), inactive channels, "
+                         "combinations without layout, malformed lines; pull_burst / probe over 2 periods per timeslot and every frame of the first and last 51x26x8 cycle per combination. "
+                         "distinct_nontrivial = distinct (task, set of kinds/flags fired), (layout, frame row), (lookup result), (layout, channel, rc, substituted?, "
+                         "crosses period / hyperframe), (layout, row, handler called / probe result) classes" % len(tasks))
